@@ -1,11 +1,11 @@
-\* 2 calls x 1 connection, 1 drop, 2 noise packets (duplicates, unknown ids, pongs), 1 silence reconnect
+\* quick: 2 calls x 2 connections, 1 noise packet (pong | unknown id | duplicate | other)
 CONSTANTS
   Calls = {c1, c2}
-  NConns = 1
+  NConns = 2
   Unknown = unk
-  MaxDrops = 1
-  MaxNoise = 2
-  MaxSilence = 1
+  MaxDrops = 0
+  MaxNoise = 1
+  MaxSilence = 0
   StrictRst = TRUE
   MaxBacklog = 3
 SPECIFICATION Spec
